@@ -3,7 +3,9 @@
 (* the real parse tree) pairs against the declarative nesting model.  The     *)
 (* batch (env TRACE_FILE) is a JSON array of [doc, obs]; obs has the shape   *)
 (* of RefRelations(doc).  A mismatch is also compared with the as-is machine *)
-(* (all deviation switches on) so that the harness can classify it.          *)
+(* (all deviation switches on) so that the harness can classify it.  Lines    *)
+(* may carry a structured filler (fields s, z: ParserRefDoc); the model       *)
+(* demands the relations of the document without it.                          *)
 EXTENDS ParserRefDoc, Json, IOUtils
 
 Cases == JsonDeserialize(IOEnv.TRACE_FILE)
@@ -13,9 +15,12 @@ Init == i = 1 /\ bad = <<>>
 Next ==
   /\ i <= Len(Cases)
   /\ \E c \in { Cases[i] } :
-     \E ref \in { RefRelations(c.doc) } :
+     \E ref \in { RefRelations(Plain(c.doc)) } :
        bad' = IF c.obs = ref THEN bad
-              ELSE Append(bad, [i |-> i, expected |-> ref, asis |-> (c.obs = MachineRelations(c.doc, AllDevs))])
+              ELSE Append(bad, [i |-> i, expected |-> ref, asis |-> (c.obs = MachineRelations(c.doc, AllDevs)),
+                                \* documents with a structured filler: is it the flag-instead-of-counter machine?
+                                flag |-> ((\E j \in 1..Len(c.doc) : HasS(c.doc[j]))
+                                          /\ c.obs = MachineRelations(c.doc, ModelDevs))])
   /\ i' = i + 1
 Spec == Init /\ [][Next]_<<i, bad>>
 Verdict == (i = Len(Cases) + 1) => PrintT(<<"VERDICT", ToJson([consumed |-> i - 1, bad |-> bad])>>)
